@@ -20,6 +20,33 @@ def build(ck):
         ck.machinery_error("C04 harness does not link:\n" + r.stderr[-2000:]); return None
     return exe
 
+def header_attributes(ck):
+    """(G) The attribute macro on each public ring function, read from the header.  A function that loads a head the other
+    thread stores (everything but zix_ring_capacity) must not be declared pure or const: the caller's compiler may then
+    merge or hoist calls, and a polling loop never sees the other side's progress."""
+    import re
+    txt = open(os.path.join(REPO, "include/zix/ring.h")).read()
+    txt = re.sub(r"/\*.*?\*/", "", txt, flags=re.S)
+    decls = re.findall(r"\b(ZIX_[A-Z_]*API)\b([^;{}]*?)\b(zix_ring_\w+)\s*\(", txt)
+    if len(decls) < 10: raise RuntimeError("ring.h: declarations not recognised")
+    return {name: api for api, _, name in decls}
+
+def build_client(ck):
+    """The client-view harness: optimised caller that sees only the public header; ring.c compiled separately."""
+    inc = ["-I", os.path.join(REPO, "include"), "-I", os.path.join(REPO, "src")] + FEATURES
+    objs = []
+    for f in ["ring.c", "allocator.c", "errno_status.c"]:
+        o = os.path.join(ck.work, "cw_" + f.replace(".c", ".o"))
+        r = sh(["gcc", "-std=gnu11", "-O2", "-c", os.path.join(REPO, "src", f), "-o", o] + inc)
+        if r.returncode != 0:
+            ck.machinery_error("%s does not compile:\n%s" % (f, r.stderr[-2000:])); return None
+        objs.append(o)
+    exe = os.path.join(ck.work, "h_c04w")
+    r = sh(["gcc", "-std=gnu11", "-O2", os.path.join(VERIF, "harness/h_c04w.c")] + objs + ["-o", exe, "-lpthread", "-I", os.path.join(REPO, "include")])
+    if r.returncode != 0:
+        ck.machinery_error("C04 client-view harness does not build:\n" + r.stderr[-2000:]); return None
+    return exe
+
 def run(ck):
     ck.level = "proof"
     ck.cov["rule"] = ("for every public thread-safe function (write, begin/amend/amend/commit, write_space, read, peek, skip, read_space) x ring size N in {1,2,4,8,16} (thorough: to 64) x every head pair "
@@ -83,4 +110,22 @@ def run(ck):
     ck.sample(hist[2][:4]); ck.sample(soak[:1])
     for h in hist:
         for l in h: ck.hist(l.split()[1] if l.startswith("acc") else "soak")
-    ck.kcompare("k", exe, "c04", hist, keep_head=0, what="the shared-memory access sequence of a ring function differs from the model's program")
+    ck.kcompare("k", exe, "c04", hist, keep_head=0, corpus_prefix="acc", what="the shared-memory access sequence of a ring function differs from the model's program")
+    # the caller's view: attributes of the public declarations, and optimised polling loops on both sides
+    cexe = build_client(ck)
+    if not cexe: return
+    spins = [["spinread 1", "spinwrite 1", "spinread 100", "spinwrite 700"]]
+    try:
+        attrs = header_attributes(ck)
+    except Exception as e:
+        ck.machinery_error("translator (ring.h attributes) failed: %r" % (e,)); return
+    ck.cov["header_attributes"] = attrs
+    ck.cov["obligations"] += 1
+    bad = sorted(n for n, a in attrs.items() if ("PURE" in a or "CONST" in a) and n != "zix_ring_capacity")
+    if bad:
+        ck.report_violation("client", "# property C04 — public declarations of the ring\n# declared pure/const in include/zix/ring.h although each call loads a head that the other thread stores: "
+                            + ", ".join(bad) + "\n# the caller's compiler may merge or hoist such calls: a thread polling in a loop that writes no memory never sees the other side's progress\n"
+                            "# replay: bin/check C04 --replay <this file>   (runs the optimised polling loops of harness/h_c04w.c)\n#--- script\nspinread 1\nspinwrite 1\n")
+    else:
+        ck.cov["discharged"] += 1
+    ck.kcompare("client", cexe, "c04", spins, keep_head=0, corpus_prefix="client", what="a caller polling the ring through the public header does not see the other side's progress")
